@@ -756,6 +756,30 @@ def sn_guard(species_tree, symm_tree):
     return cutoff, ast.unparse(sp) + ast.unparse(first)
 
 
+def check_entry_points(species_tree):
+    """Species.calc_thermo / calc_g_cont / calc_h_cont: how `temp` reaches calculate_thermo_cont (pinned text)."""
+    rel = "autode/species/species.py"
+    cls = find_cls(species_tree, "Species")
+    ct = find_fn(cls, "calc_thermo")
+    src = ast.unparse(ct)
+    a = ct.args
+    names = [x.arg for x in a.args]
+    if names != ["self", "method", "calc", "temp", "keywords"] or a.kwarg is None or \
+            ast.unparse(a.defaults[names.index("temp") - (len(names) - len(a.defaults))]) != "val.Temperature(298.15)":
+        bail(ct, "Species.calc_thermo: signature / default temperature changed", rel)
+    for needle in ("if isinstance(temp, float):\n        logger.warning('Temperature defined as a float. Assuming units of K')\n        temp = val.Temperature(temp)\n",
+                   "calculate_thermo_cont(self, temp=temp, **kwargs)"):
+        if needle not in src:
+            bail(ct, f"Species.calc_thermo no longer contains `{needle[-60:]}`", rel)
+    if src.count("temp =") != 1 or src.count("temp=") != 1:
+        bail(ct, "Species.calc_thermo: `temp` is rebound / passed more than once", rel)
+    for nm in ("calc_g_cont", "calc_h_cont"):
+        f = find_fn(cls, nm)
+        if [ast.unparse(x) for x in strip_doc(f)] != ["return self.calc_thermo(*args, **kwargs)"]:
+            bail(f, f"Species.{nm} no longer delegates to calc_thermo", rel)
+    return src
+
+
 def si_constants(igm_tree):
     cls = find_cls(igm_tree, "SIConstants")
     env = {}
@@ -806,6 +830,7 @@ def main():
     spans.append(check_params_class(igm_tree))
     cutoff, s = sn_guard(ast.parse(species_src), ast.parse(symm_src))
     spans.append(s)
+    spans.append(check_entry_points(ast.parse(species_src)))
     # every method of the enum
     lf = find_cls(igm_tree, "LFMethod")
     members = [ast.unparse(s) for s in lf.body if isinstance(s, ast.Assign)]
